@@ -1,12 +1,15 @@
 /* big_world.c -- complement to the closure searches: an ENUMERATED family of large deterministic histories, for behaviour that depends on
  * the NUMBER of elements / buckets rather than on a shape a small pool can reach (tree height at 1000+ nodes, tables of 1024+ buckets,
  * lists and maps of thousands of elements).  Not a sample: a fixed, listed set of (container, size, insertion order, erase order) cases,
- * every one executed completely against a reference.  Serves C01, C02, C03, C04, C08, C12, C13, C19 (the property selects the oracle). */
+ * every one executed completely against a reference.  Serves C01, C02, C03, C04, C08, C09, C10, C12, C13, C19 (the property selects the oracle). */
 #define _GNU_SOURCE
 #include "cstl/rbtree.h"
 #include "cstl/map.h"
 #include "cstl/dlist.h"
 #include "cstl/slist.h"
+#include "cstl/vector.h"
+#include "cstl/string.h"
+#include <wchar.h>
 #include "hash.c"
 #include "../engine/shim.h"
 #include <stdio.h>
@@ -242,6 +245,76 @@ static void list_case(int dl, unsigned n, int ord)
 
 /* every case runs under the abort trap and the hang watchdog */
 #define GUARDED(CALL) do { int ab_; SHIM_CALL(ab_, CALL); shim_in_lib = 0; if (ab_) fail(ab_ == 3 ? "a library call did not terminate within 3 s" : ab_ == 2 ? "assertion failure inside the library: %s" : "abort() inside the library%s", ab_ == 2 ? shim_assert_msg : ""); } while (0)
+/* ================= vector ================= */
+static long vx_cons, vx_dest;
+static void vcons(void *e, void *p) { (void)p; *(unsigned *)e = 0xC0DEu; vx_cons++; }
+static void vdest(void *e, void *p) { (void)p; if (*(unsigned *)e == 0xDEADu) fail("destructor ran twice on the same element"); *(unsigned *)e = 0xDEADu; vx_dest++; }
+static int ucmp(const void *a, const void *b, void *p) { (void)p; return (*(const unsigned *)a > *(const unsigned *)b) - (*(const unsigned *)a < *(const unsigned *)b); }
+static void vector_case(size_t es, int xt, int pattern)
+{
+    cstl_vector_t v; size_t size = 0, i, step; static const size_t targets[] = { 1, 7, 8, 9, 63, 64, 65, 255, 256, 257, 100, 1023, 1024, 1025, 3, 4095, 4096, 4097, 0, 5000, 2048, 2049, 1 };
+    unsigned t;
+    setcase("vector:%zu:%d:%d", es, xt, pattern);
+    shim_reset(); shim_in_lib++;
+    vx_cons = vx_dest = 0;
+    if (xt) cstl_vector_init_complex(&v, es, vcons, vdest, NULL); else cstl_vector_init(&v, es);
+    for (t = 0; t < sizeof targets / sizeof targets[0] && !nviol; t++) {
+        size_t n = targets[t];
+        if (pattern == 1 && (t & 1)) cstl_vector_reserve(&v, n + n / 2 + 3);
+        if (pattern == 2 && (t % 3) == 2) cstl_vector_shrink_to_fit(&v);
+        cstl_vector_resize(&v, n); evals++;
+        CHECK(cstl_vector_size(&v) == n && cstl_vector_capacity(&v) >= n, "resize(%zu): size %zu capacity %zu", n, cstl_vector_size(&v), cstl_vector_capacity(&v));
+        if (n) { shim_blk *b = shim_find(cstl_vector_data(&v)); CHECK(b && b->p == cstl_vector_data(&v) && b->sz >= (cstl_vector_capacity(&v) + 1) * es, "capacity %zu of %zu-byte elements is not backed by the live allocation (%zu bytes)", cstl_vector_capacity(&v), es, b ? b->sz : 0); }
+        /* elements that stayed in range keep their bytes; new ones are stamped by the caller (or the constructor) */
+        for (i = 0; i < (size < n ? size : n) && !nviol; i++) { unsigned char *e = cstl_vector_at(&v, i); CHECK(e[es - 1] == (unsigned char)(i * 7 + 1) || xt, "element %zu lost its bytes across resize %zu -> %zu", i, size, n); if (nviol) break; }
+        for (i = size; i < n; i++) { unsigned char *e = cstl_vector_at(&v, i); if (!xt) memset(e, (int)(unsigned char)(i * 7 + 1), es); else CHECK(*(unsigned *)e == 0xC0DEu, "element %zu was not constructed", i); }
+        if (xt) CHECK(vx_cons - vx_dest == (long)n, "%ld constructed, %ld destroyed, %zu in the vector", vx_cons, vx_dest, n);
+        size = n;
+    }
+    if (!xt && es >= sizeof(unsigned) && !nviol) {
+        cstl_vector_resize(&v, 3000);
+        for (i = 0; i < 3000; i++) *(unsigned *)cstl_vector_at(&v, i) = (unsigned)((i * 2654435761u) % 1000);
+        cstl_vector_sort(&v, ucmp, NULL);
+        for (i = 0; i + 1 < 3000 && !nviol; i++) CHECK(*(unsigned *)cstl_vector_at(&v, i) <= *(unsigned *)cstl_vector_at(&v, i + 1), "sort of 3000 elements: not sorted at %zu", i);
+        cstl_vector_reverse(&v);
+        for (i = 0; i + 1 < 3000 && !nviol; i++) CHECK(*(unsigned *)cstl_vector_at(&v, i) >= *(unsigned *)cstl_vector_at(&v, i + 1), "reverse of 3000 sorted elements: wrong at %zu", i);
+        for (step = 0; step < 1000 && !nviol; step += 37) { unsigned probe = (unsigned)step; ssize_t r; cstl_vector_reverse(&v); r = cstl_vector_search(&v, &probe, ucmp, NULL); cstl_vector_reverse(&v); if (r >= 0) CHECK(*(unsigned *)cstl_vector_at(&v, 2999 - (size_t)r) == probe, "search(%u) returned an index holding another value", probe); }
+    }
+    cstl_vector_clear(&v);
+    if (xt) CHECK(vx_cons == vx_dest, "after clear %ld constructed but %ld destroyed", vx_cons, vx_dest);
+    CHECK(shim_nlive() == 0 && shim_errors == 0, "after clear %d allocations are alive / allocator misuse %u", shim_nlive(), shim_errors);
+    shim_in_lib = 0;
+}
+
+/* ================= strings ================= */
+#define BIGSTR(NAME, ST, PFX, CH, XLEN, XCMP, XSTR) \
+static void NAME(int pattern) \
+{ \
+    static CH ref[8192], piece[64]; ST s, t; size_t n = 0, i, k; \
+    setcase(#NAME ":%d", pattern); \
+    shim_reset(); shim_in_lib++; \
+    PFX##init(&s); PFX##init(&t); ref[0] = 0; \
+    for (k = 0; k < 400 && !nviol; k++) { \
+        size_t len = 1 + (k * 7 + (size_t)pattern * 3) % 23, pos = pattern == 0 ? n : pattern == 1 ? 0 : (k * 131) % (n + 1); \
+        for (i = 0; i < len; i++) piece[i] = (CH)('a' + (k + i) % 26); piece[len] = 0; \
+        if (k % 5 == 4) { PFX##insert_ch(&s, pos, len, piece[0]); for (i = 0; i < len; i++) piece[i] = piece[0]; } \
+        else PFX##insert_str_n(&s, pos, piece, len); \
+        memmove(ref + pos + len, ref + pos, (n - pos + 1) * sizeof(CH)); memcpy(ref + pos, piece, len * sizeof(CH)); n += len; evals++; \
+        if (k % 9 == 8 && n > 40) { size_t ep = (k * 17) % (n - 30), el = 1 + k % 29; PFX##erase(&s, ep, el); memmove(ref + ep, ref + ep + el, (n - ep - el + 1) * sizeof(CH)); n -= el; } \
+        if ((n & (n - 1)) == 0 || k % 16 == 0 || k == 399) { \
+            CHECK(PFX##size(&s) == n && XLEN(PFX##str(&s)) == n && XCMP(PFX##str(&s), ref) == 0, "after %zu edits the string (%zu characters) differs from the reference", k + 1, n); \
+            if (n > 10) { const CH *f = XSTR(ref + n / 3, piece); ssize_t r = PFX##find_str(&s, piece, n / 3); CHECK(r == (f ? (ssize_t)(f - ref) : -1), "find_str from %zu in a string of %zu characters returned %zd", n / 3, n, r); \
+                PFX##substr(&s, n / 4, n / 2, &t); CHECK(PFX##size(&t) == n / 2 && memcmp(PFX##str(&t), ref + n / 4, (n / 2) * sizeof(CH)) == 0 && PFX##str(&t)[n / 2] == 0, "substr(%zu,%zu) of a %zu character string is wrong", n / 4, n / 2, n); } \
+        } \
+    } \
+    PFX##erase(&s, 5, (size_t)-1); CHECK(PFX##size(&s) == 5 && PFX##str(&s)[5] == 0 && memcmp(PFX##str(&s), ref, 5 * sizeof(CH)) == 0, "erase(5, all-ones) of a long string did not leave its first 5 characters"); \
+    PFX##clear(&s); PFX##clear(&t); \
+    CHECK(shim_nlive() == 0 && shim_errors == 0, "after clear %d allocations are alive", shim_nlive()); \
+    shim_in_lib = 0; \
+}
+BIGSTR(bigstring, cstl_string_t, cstl_string_, char, strlen, strcmp, strstr)
+BIGSTR(bigwstring, cstl_wstring_t, cstl_wstring_, wchar_t, wcslen, wcscmp, wcsstr)
+
 static double now(void) { struct timespec ts; clock_gettime(CLOCK_MONOTONIC, &ts); return ts.tv_sec + ts.tv_nsec * 1e-9; }
 static void run_family(int thorough, const char *only)
 {
@@ -256,6 +329,8 @@ static void run_family(int thorough, const char *only)
         static const size_t geo[][3] = { { 16, 1024, 64 }, { 1024, 2048, 1024 }, { 7, 1031, 5 }, { 2048, 16, 4096 }, { 64, 64 * 3, 1 } }; unsigned g;
         for (g = 0; g < 5 && !nviol; g++) { GUARDED(hash_case(3000, geo[g][0], geo[g][1], geo[g][2])); GUARDED(hash_case(4, geo[g][0], geo[g][1], geo[g][2])); GUARDED(hash_case(97, geo[g][0], geo[g][1], geo[g][2])); }
     }
+    if (is("C09")) { static const size_t ess[] = { 1, 3, 4, 8, 24, 64 }; unsigned e; for (e = 0; e < 6 && !nviol; e++) for (a = 0; a < 3 && !nviol; a++) { GUARDED(vector_case(ess[e], 0, a)); if (ess[e] >= 4) GUARDED(vector_case(ess[e], 1, a)); } }
+    if (is("C10")) for (a = 0; a < 3 && !nviol; a++) { GUARDED(bigstring(a)); GUARDED(bigwstring(a)); }
     if (is("C12") || is("C13")) for (ni = 0; ni < nn && !nviol; ni++) for (a = 0; a < 5 && !nviol; a++) GUARDED(list_case(is("C12"), tn[ni] == 2049 ? 4097 : tn[ni], a));
     (void)only;
 }
@@ -275,13 +350,16 @@ int main(int argc, char **argv)
         else if (!strcmp(argv[i], "--nconfigs")) { printf("1\n"); return 0; }
         else { fprintf(stderr, "bad arg %s\n", argv[i]); return 2; }
     }
-    if (!(is("C01") || is("C02") || is("C03") || is("C04") || is("C08") || is("C12") || is("C13") || is("C19"))) { fprintf(stderr, "big: property not served\n"); return 2; }
+    if (!(is("C01") || is("C02") || is("C03") || is("C04") || is("C08") || is("C09") || is("C10") || is("C12") || is("C13") || is("C19"))) { fprintf(stderr, "big: property not served\n"); return 2; }
     if (replay) {
         int a, b, c, d; unsigned n; size_t x, y, z;
         if (sscanf(replay, "tree:%d:%u:%d:%d:%d", &a, &n, &b, &c, &d) == 5) GUARDED(tree_case(a, n, b, c, d));
         else if (sscanf(replay, "map:%u:%d:%d", &n, &a, &b) == 3) GUARDED(map_case(n, a, b));
         else if (sscanf(replay, "hash:%u:%zu:%zu:%zu", &n, &x, &y, &z) == 4) GUARDED(hash_case(n, x, y, z));
         else if (sscanf(replay, "list:%d:%u:%d", &a, &n, &b) == 3) GUARDED(list_case(a, n, b));
+        else if (sscanf(replay, "vector:%zu:%d:%d", &x, &a, &b) == 3) GUARDED(vector_case(x, a, b));
+        else if (sscanf(replay, "bigstring:%d", &a) == 1) GUARDED(bigstring(a));
+        else if (sscanf(replay, "bigwstring:%d", &a) == 1) GUARDED(bigwstring(a));
         else return 4;
         printf("case %s\n", replay);
         if (nviol) { printf("VIOLATED: %s\n", violmsg[0]); return 1; }
